@@ -486,3 +486,58 @@ def c14(ev, tier, seed):
         conn_model(ev, "C14", seed, "stops-b32", 32, ["basic", "query"], spurious=True, stops=True, maxcuts=1, maxpend=2)
     ev.exhaustive = False
     ev.assumptions = CONN_ASSUME + ["Arc/Weak and AtomicWaker behave as documented (upgrade fails iff no strong reference; wake takes the registered waker)"]
+
+
+# ---------------------------------------------------------------------------- CGI helpers (C19 C20)
+def run_tlc_env(name, module, cfg_text, harness_args, env, workers=4, timeout=900):
+    """like run_tlc_piped, with extra environment variables for IOEnv."""
+    old = {k: os.environ.get(k) for k in env}
+    os.environ.update(env)
+    try:
+        return cl.run_tlc_piped(name, module, cfg_text, harness_args, workers=workers, timeout=timeout)
+    finally:
+        for k, v in old.items():
+            if v is None:
+                os.environ.pop(k, None)
+            else:
+                os.environ[k] = v
+
+
+@check("C19")
+def c19(ev, tier, seed):
+    ev.rule = ("VarName.tla transcribes equality / order / hash feeding / header mapping as operators over byte strings. Mode 'laws': "
+               "all strings of length <= 2 (thorough 3) over {a, A, b, _, -, the bytes of e-acute and E-acute} with LANES = 2: "
+               "equivalence, total order consistent with it, equal => identical hash writes, prefix-freeness, 'ASCII case only'. Mode "
+               "'vectors': every n-th interned name (read from intern.rs; thorough: all) and names of length 1,2,15,16,17,31,32,33,48 in "
+               "upper / lower / mixed case, with the last byte dropped, with one non-ASCII substitution and one appended byte, all pairs "
+               "per name; replayed on VarName / OwnedVarName through every constructor, a recording Hasher, a HashMap lookup and "
+               "From<&HeaderName>. This is a transcription + vector binding, the weakest use of the technique here.")
+    depth = 3 if tier == "thorough" else 2
+    laws = "SPECIFICATION Spec\nCONSTANTS\n  Mode = \"laws\"\n  Depth = %d\nINVARIANTS Laws Emit\nCHECK_DEADLOCK FALSE\n" % depth
+    stats, h = cl.run_tlc_piped("C19-laws", "MC_VarName", laws, ["cgi-vectors", "--prop", "C19"], workers=4, timeout=1500)
+    ev.add_tlc("MC_VarName laws depth=%d" % depth, stats)
+    names = os.path.join(cl.OUT, "C19-names.ndjson")
+    subprocess.run([cl.HARNESS, "dump-names", "--file", names, "--limit", "400" if tier == "thorough" else "40"], check=True)
+    vec = "SPECIFICATION Spec\nCONSTANTS\n  Mode = \"vectors\"\n  Depth = 1\nINVARIANTS Laws Emit\nCHECK_DEADLOCK FALSE\n"
+    stats, h = run_tlc_env("C19-vectors", "MC_VarName", vec, ["cgi-vectors", "--prop", "C19"], {"NAMES": names})
+    ev.add_tlc("MC_VarName vectors", stats)
+    ev.add_harness("vectors replayed on VarName / OwnedVarName", h)
+    ev.exhaustive = False
+    ev.assumptions = ["only valid UTF-8 strings can be given to the name types; 'arbitrary hashers' is represented by a hasher that records its calls"]
+
+
+@check("C20")
+def c20(ev, tier, seed):
+    ev.rule = ("Response.tla states the grammar as operators (status line, header lines, blank line; redirect). MC_Response: status codes "
+               "{100,199,200,299,404,418,451,599,600,999} (thorough: all 100..999) with the reason phrase supplied from the http crate's "
+               "table, header lists of 0..2 headers over names/values {'', 'a', 'ab', '- \\xff'}, every destination capacity 0..len+1; "
+               "expected bytes, byte count and failure replayed on write_headers, simple_redirect (bounded &mut [u8] and Vec) and "
+               "http_headers.")
+    reasons = os.path.join(cl.OUT, "C20-reasons.ndjson")
+    subprocess.run([cl.HARNESS, "dump-reasons", "--file", reasons], check=True)
+    cfg = "SPECIFICATION Spec\nCONSTANT Full = %s\nINVARIANTS Laws Emit\nCHECK_DEADLOCK FALSE\n" % ("TRUE" if tier == "thorough" else "FALSE")
+    stats, h = run_tlc_env("C20-vectors", "MC_Response", cfg, ["cgi-vectors", "--prop", "C20"], {"REASONS": reasons})
+    ev.add_tlc("MC_Response", stats)
+    ev.add_harness("vectors replayed on the header writers", h)
+    ev.exhaustive = False
+    ev.assumptions = ["the reason phrase is an input taken from the http crate (canonical_reason, 'Custom' otherwise)"]
